@@ -349,6 +349,21 @@ def _convert_condbr(
     parent = op.parent_block()
     assert parent is not None
     current_block = block_map[parent]
+    if then_block is else_block:
+        # Both edges come from the same predecessor: LLVM requires their incoming
+        # values to be identical, so choose the value with a select.
+        for arg, then_val, else_val in zip(
+            then_block.args, op.then_arguments, op.else_arguments
+        ):
+            phi = val_map[arg]
+            assert isinstance(phi, PhiInstr)
+            incoming = val_map[then_val]
+            if then_val is not else_val:
+                incoming = builder.select(val_map[op.cond], incoming, val_map[else_val])
+            phi.add_incoming(incoming, current_block)
+            phi.add_incoming(incoming, current_block)
+        builder.cbranch(val_map[op.cond], block_map[then_block], block_map[else_block])
+        return
     for arg, val in zip(then_block.args, op.then_arguments):
         phi = val_map[arg]
         assert isinstance(phi, PhiInstr)
